@@ -7,7 +7,7 @@ META = {
         "quick": "step lists {[6],[4],[6,4],[4,6],[12,8],[3,2]} with 1 note and 1 note + key/time signature; {[6],[4],[6,4],[3,2]} with 2 notes "
                  "back to back on one (channel,pitch); {[6],[4]} with 2 notes of symbolic pitch 60..61 and channel 0..1 interleaved or "
                  "simultaneous (same pitch on two channels reachable); waits (gaps and durations) 0/1..2*max(step)+1; default step list, 1 note, waits <= 13",
-        "thorough": "as quick plus 2 very short notes, 2 notes + event, default list [24,12,6,16,8,4] with 2 notes (waits <= 13), waits up to 3*max(step)",
+        "thorough": "as quick plus 2 very short notes, 2 notes + event for {[6],[4]}, [12,8] and [4,6] with 2 notes back to back, default list with 1 note and waits <= 30, single-note waits up to 3*max(step)",
     },
     "outside_claim": ["more than 2 notes + 1 event", "symbolic step sizes (division by a symbolic integer)", "ill-formed input (unclosed notes)"],
     "stubs": ["int() shadowed", "logging disabled",
@@ -21,10 +21,12 @@ SHAPES = {
     "n2free": ["W0", ("ON", 0), "W", ("ON", 1), "W", ("OFF", 0), "W", ("OFF", 1), "W0"],
     "n2sim": [("ON", 0), ("ON", 1), "W", ("OFF", 0), "W0", ("OFF", 1), "W"],
     "n1ev": ["W0", ("ON", 0), "W", ("KS", KEYS[2]), "W", ("OFF", 0), "W0", ("TS", 3, 4)],
+    # two notes that can both collapse inside one grid cell (interleaved removals) with bystanders behind them
+    "n2simw": ["W0", ("ON", 0), ("ON", 1), "W", ("OFF", 0), "W0", ("OFF", 1), "W", ("KS", KEYS[2]), "W0", ("PC", 3)],
     "n2short": ["W0", ("ON", 0), ("W", 1, 2), ("OFF", 0), ("W", 0, 2), ("ON", 1), ("W", 1, 2), ("OFF", 1), "W"],
     "n2ev": ["W0", ("ON", 0), "W", ("ON", 1), "W", ("KS", KEYS[2]), ("OFF", 0), "W", ("OFF", 1), "W0"],
 }
-FREE = {"n2free", "n2sim", "n2ev"}
+FREE = {"n2free", "n2sim", "n2ev", "n2simw"}
 
 
 def q_quantise(shape, sname, wmax):
@@ -111,25 +113,23 @@ REQUIRED = ["isolated_note_dropped_only_without_room"]
 def queries(tier, seed):
     qs = []
     multi = ("s64", "s46", "s128", "s32")
-    if tier == "quick":
-        for sn in ("s6", "s4") + multi:
-            mx = max(STEPS[sn])
-            for s in ("n1", "n1ev"):
-                qs.append(q_quantise(s, sn, 2 * mx + 2))
-        for sn in ("s6", "s4", "s64", "s32"):
-            qs.append(q_quantise("n2same", sn, min(2 * max(STEPS[sn]) + 1, 13)))
+    for sn in ("s6", "s4") + multi:
+        mx = max(STEPS[sn])
+        for s in ("n1", "n1ev"):
+            qs.append(q_quantise(s, sn, 2 * mx + 2 if tier == "quick" else 3 * mx))
+    for sn in ("s6", "s4", "s64", "s32"):
+        qs.append(q_quantise("n2same", sn, min(2 * max(STEPS[sn]) + 1, 13)))
+    for sn in ("s6", "s4"):
+        qs.append(q_quantise("n2free", sn, 2 * max(STEPS[sn]) + 1))
+        qs.append(q_quantise("n2sim", sn, 2 * max(STEPS[sn]) + 1))
+    qs.append(q_quantise("n2simw", "s6", 5))
+    qs.append(q_quantise("n1", "default", 13))
+    if tier == "thorough":
         for sn in ("s6", "s4"):
-            qs.append(q_quantise("n2free", sn, 2 * max(STEPS[sn]) + 1))
-            qs.append(q_quantise("n2sim", sn, 2 * max(STEPS[sn]) + 1))
-        qs.append(q_quantise("n1", "default", 13))
-    else:
-        for sn in ("s6", "s4") + multi:
-            mx = max(STEPS[sn])
-            for s in SHAPES:
-                if s in FREE and sn in ("s128", "s46"):
-                    continue
-                w = 3 * mx if s in ("n1", "n1ev") else min(2 * mx + 2, 14)
-                qs.append(q_quantise(s, sn, w))
-        qs.append(q_quantise("n1", "default", 50))
-        qs.append(q_quantise("n2same", "default", 9))
+            qs.append(q_quantise("n2short", sn, 2 * max(STEPS[sn]) + 1))
+            qs.append(q_quantise("n2ev", sn, max(STEPS[sn]) + 2))
+        qs.append(q_quantise("n2simw", "s4", 4))
+        qs.append(q_quantise("n2same", "s128", 13))
+        qs.append(q_quantise("n2same", "s46", 9))
+        qs.append(q_quantise("n1", "default", 30))
     return qs
